@@ -75,6 +75,10 @@ def _case(draw):
                 g["verticalOrigin"] = draw(st.sampled_from([880, 880, 800, 750.5, 0, 0.4]))
     flavour = draw(st.sampled_from(["ttf", "cff", "cff2"]))
     positive = spec.pop("_positive", False)
+    if flavour == "ttf" and draw(st.integers(0, 5)) == 0:
+        # TrueType only: a glyph whose points all coincide away from the origin - its box is a point, not "empty" (the CFF side of this is outside the domain, see ASSUMPTIONS)
+        px, py = draw(st.sampled_from([(-30, 50), (120, 0), (0, -7)]))
+        spec["glyphs"].append({"name": "dotpt", "width": 300, "unicodes": [], "contours": [[[px, py, "line"], [px, py, "line"], [px, py, "line"]]]})
     case = {"spec": spec, "module": draw(st.sampled_from(["ufoLib2", "defcon"])), "flavour": flavour}
     if positive:
         case["positive"] = True
@@ -432,7 +436,7 @@ def run_case(case, ctx):
     if extent(spec) > 16000:
         raise Discard("resolved coordinate beyond +-16000")
     gi0 = R.glyph_index(spec)
-    if any(any_point_contour(gi0, g["name"]) for g in spec["glyphs"]):
+    if any(any_point_contour(gi0, g["name"]) for g in spec["glyphs"] if not (flavour == "ttf" and g["name"] == "dotpt")):
         raise Discard("contour that collapses to a single point")
     f = S.build(spec, S.ufo_module(case["module"]))
     kw = {"cffVersion": 2} if flavour == "cff2" else {}
@@ -493,7 +497,7 @@ def run_case(case, ctx):
     # (after subroutinising, cffsubr's tx has re-encoded the relative operands with two decimals: absolute positions drift, every bound is lenient)
     order, boxes, exact = expected_fields(t3, spec, flavour, case.get("tol"), noise=1.0 if case.get("opt") == 2 else 2e-3)
     for n in order:
-        if boxes[n] is not None and boxes[n][0] == boxes[n][2] and boxes[n][1] == boxes[n][3]:
+        if boxes[n] is not None and boxes[n][0] == boxes[n][2] and boxes[n][1] == boxes[n][3] and not (flavour == "ttf" and n == "dotpt"):
             raise Discard("compiled glyph whose outline collapses to a single point")
     has_empty_composite = any(g.get("components") and not g.get("contours") and not any(True for _ in R.resolve(gi, g["name"])) for g in spec["glyphs"])
     # post / CFF names: the reloaded glyph order (read from post format 2, or the CFF charset) is the source's glyph set
@@ -526,6 +530,8 @@ def run_case(case, ctx):
     # classification
     adv = [t3["hmtx"][n][0] for n in order]
     ctx.label(flavour)
+    if flavour == "ttf" and any(g["name"] == "dotpt" for g in spec["glyphs"]):
+        ctx.label("ttf-glyph-that-is-a-single-point-off-the-origin")
     if case.get("positive"):
         ctx.label("no-outline-touches-the-origin")
     if spec.get("glyphOrder") and len(set(spec["glyphOrder"])) != len(spec["glyphOrder"]):
